@@ -584,9 +584,52 @@ func c05RunLS(r *vlib.Run, c c05Case) {
 	r.Eval()
 	ctx := fmt.Sprintf("%s addr=%#x pageA=%#x access=(%s,%s) pat=%d split=%d", op.name, c.Addr, c.PageA, c05AccName[c.AccA], c05AccName[c.AccB], c.Pat, c.Split)
 	c05Report(r, op.name, per, c, ctx)
+	// the same instruction on a Memory value that has served other accesses before and whose page map
+	// was then edited in place (as the `pages` host call does) and copied by value (as `invoke` does):
+	// a Memory must behave as a function of its page map only.
+	var warm [2][]c05Finding
+	for e := 0; e < 2; e++ {
+		res := c05Run(e, blob, regs, c05WarmMemory(e, model, c.Addr, op.width, c.Pat))
+		r.Transition()
+		f, class := c05Judge(op, model, c.Addr, val, dst, regs, res)
+		for i := range f {
+			f[i].key += ";memory-reused-after-remap"
+		}
+		warm[e] = f
+		r.Class("reused-memory " + class)
+	}
+	c05Report(r, op.name, warm, c, ctx+" on a reused, remapped Memory")
 	if r.WantSample() && c.AccA == c05RW && c.AccB == c05RO && c.Addr%ZP == ZP-2 {
 		r.Sample(map[string]interface{}{"case": c, "instr": vlib.Hex(instr)})
 	}
+}
+
+// c05WarmMemory returns a real Memory whose page map equals the model's, but which has a history:
+// it was created with other (writable) pages at the addresses of the access, served two loads (last
+// page of the access first, then the first page), then had every map entry deleted and the model's
+// pages inserted, and was finally copied by value.
+func c05WarmMemory(engine int, model *c05Model, addr uint32, width, pat int) *Memory {
+	first, last := addr/ZP, (addr+uint32(width)-1)/ZP
+	old := &c05Model{pages: map[uint32]*c05Page{}, hp: model.hp, hl: model.hl}
+	old.add(last, c05RW, pat^1)
+	old.add(first, c05RW, pat^1)
+	mem := old.real()
+	ld := c05Ops[4] // load_u8
+	for _, a := range []uint32{last * ZP, first*ZP + addr%ZP} {
+		if a < 1<<16 {
+			continue
+		}
+		instr, regs, _, _ := c05Build(ld, a, 0, 0)
+		c05Run(engine, c05Blob(instr), regs, mem)
+	}
+	for k := range mem.Pages {
+		delete(mem.Pages, k)
+	}
+	for k, p := range model.real().Pages {
+		mem.Pages[k] = p
+	}
+	m2 := *mem
+	return &m2
 }
 
 // the page placements: A = first page of the pair
@@ -869,6 +912,235 @@ func c05RunPages(r *vlib.Run, c c05Case) {
 	r.Eval()
 }
 
+// ---------------------------------------------------------------- history --
+
+// c05RunHist drives a real inner machine through the host calls:
+//
+//	machine(blob); pages(X..X+1, r1); invoke -> [access 1; ecalli 0];
+//	pages(T, r2) with T in {X, X+1}; invoke -> [access 2; ecalli 1]
+//
+// and judges both accesses with the page/access model (statement clauses only).
+type c05HistAcc struct {
+	store bool
+	addr  uint32
+	width int
+}
+
+const c05HX = 0x30 // page X of the inner machine
+
+func c05HistAccs() []c05HistAcc {
+	var out []c05HistAcc
+	for _, st := range []bool{false, true} {
+		out = append(out, c05HistAcc{st, c05HX*ZP + 5, 1}, c05HistAcc{st, (c05HX+1)*ZP + 5, 1}, c05HistAcc{st, c05HX*ZP + ZP - 1, 2})
+	}
+	return out
+}
+
+func (a c05HistAcc) instr() []byte {
+	op := byte(52) // load_u8 r3
+	reg := byte(3)
+	switch {
+	case a.store && a.width == 1:
+		op, reg = 59, 4
+	case a.store:
+		op, reg = 60, 4
+	case a.width == 2:
+		op = 54
+	}
+	return append([]byte{op, reg}, c05LE(uint64(a.addr), 4)...)
+}
+
+func (a c05HistAcc) String() string {
+	k := "load"
+	if a.store {
+		k = "store"
+	}
+	return fmt.Sprintf("%s_u%d@%#x", k, 8*a.width, a.addr)
+}
+
+func c05RunHist(r *vlib.Run, c c05Case) {
+	accs := c05HistAccs()
+	a1, a2 := accs[c.Op], accs[c.Split]
+	target := uint32(c05HX + c.World) // page changed by the second pages call
+	// inner program: access1; ecalli 0; access2; ecalli 1; trap
+	code := append([]byte(nil), a1.instr()...)
+	starts := []int{0, len(code)}
+	code = append(code, 10, 0)
+	starts = append(starts, len(code))
+	code = append(code, a2.instr()...)
+	starts = append(starts, len(code))
+	code = append(code, 10, 1)
+	starts = append(starts, len(code))
+	code = append(code, 0)
+	mask := make([]byte, (len(code)+7)/8)
+	for _, s := range starts {
+		mask[s/8] |= 1 << (uint(s) % 8)
+	}
+	blob := append([]byte{0, 0, byte(len(code))}, code...)
+	blob = append(blob, mask...)
+
+	const obase = 0x20000
+	outer := &Memory{Pages: map[uint32]*Page{obase / ZP: {Value: make([]byte, ZP), Access: MemoryReadWrite}}}
+	copy(outer.Pages[obase/ZP].Value[128:], blob)
+	m := IntegratedPVMMap{}
+	add := HostCallArgs{RefineArgs: RefineArgs{IntegratedPVMMap: m}}
+	ctx := fmt.Sprintf("machine; pages(%#x..+1, r=%d); invoke[%v]; pages(%#x, r=%d); invoke[%v]", c05HX, c.R1, a1, target, c.R2, a2)
+	fail := func(site, kind, key, detail string) { r.Violation(site, kind, key, ctx+": "+detail, c) }
+	call := func(f Omega, regs *Registers) (ok bool) {
+		gas := Gas(1000)
+		in := OmegaInput{VM: &VMState{Registers: regs, Memory: outer, Gas: &gas}, Addition: add}
+		var out OmegaOutput
+		pnk, msg, gs := vlib.Guard(func() { out = f(in) })
+		r.Transition()
+		if pnk {
+			fail(gs, "go-panic", "inner-machine-history", msg)
+			return false
+		}
+		return out.ExitReason == ExitContinue
+	}
+	var regs Registers
+	regs[7], regs[8], regs[9] = obase+128, uint64(len(blob)), 0
+	if !call(machine, &regs) || regs[7] != 0 {
+		fail("machine", "machine-refused-valid-blob", "hist", fmt.Sprintf("r7=%#x", regs[7]))
+		return
+	}
+	model := &c05Model{pages: map[uint32]*c05Page{}}
+	applyPages := func(p uint32, n int, rr int) bool {
+		var rg Registers
+		rg[7], rg[8], rg[9], rg[10] = 0, uint64(p), uint64(n), uint64(rr)
+		if !call(pages, &rg) {
+			return false
+		}
+		if rg[7] != OK {
+			return true // refused: nothing changes
+		}
+		for i := uint32(0); i < uint32(n); i++ {
+			switch rr {
+			case 0:
+				delete(model.pages, p+i)
+			case 1:
+				model.pages[p+i] = &c05Page{acc: c05RO}
+			case 2:
+				model.pages[p+i] = &c05Page{acc: c05RW}
+			case 3:
+				if q := model.pages[p+i]; q != nil {
+					q.acc = c05RO
+				}
+			case 4:
+				if q := model.pages[p+i]; q != nil {
+					q.acc = c05RW
+				}
+			}
+		}
+		return true
+	}
+	inRegs := func() Registers {
+		var w Registers
+		for i := range w {
+			w[i] = c05Sentinel + uint64(i)
+		}
+		w[4] = 0xB6A7
+		return w
+	}
+	invokeOnce := func(acc c05HistAcc, wantHost uint64, step string) bool {
+		blk := outer.Pages[obase/ZP].Value
+		binary.LittleEndian.PutUint64(blk[0:], 100)
+		w := inRegs()
+		for i := range w {
+			binary.LittleEndian.PutUint64(blk[8+8*i:], w[i])
+		}
+		before := model.clone()
+		v := model.judge(acc.addr, acc.width, acc.store)
+		var rg Registers
+		rg[7], rg[8] = 0, obase
+		if !call(invoke, &rg) {
+			fail("invoke", "invoke-failed", "hist", step)
+			return false
+		}
+		var got Registers
+		for i := range got {
+			got[i] = binary.LittleEndian.Uint64(blk[8+8*i:])
+		}
+		inner := m[0].Memory
+		site := "loadFromMemory"
+		if acc.store {
+			site = "storeIntoMemory"
+		}
+		key := fmt.Sprintf("inner-machine-history;%s;pages-r=%d", step, c.R2)
+		allowed := v.ok && !v.low
+		cont := rg[7] == INNERHOST && rg[8] == wantHost
+		r.Class(fmt.Sprintf("hist %s r1=%d r2=%d allowed=%v result=%d", step, c.R1, c.R2, allowed, rg[7]))
+		switch {
+		case allowed && !cont:
+			fail(site, "permitted-access-refused", key, fmt.Sprintf("%s: invoke returned r7=%d r8=%#x", step, rg[7], rg[8]))
+			return false
+		case !allowed && cont:
+			if acc.store {
+				fail(site, "write-to-non-writable-page", key, step+": the store continues")
+			} else {
+				fail(site, "read-of-non-readable-page", key, step+": the load continues")
+			}
+			return false
+		case !allowed && rg[7] != INNERFAULT && rg[7] != INNERPANIC:
+			fail(site, "unexpected-exit", key, fmt.Sprintf("%s: r7=%d", step, rg[7]))
+			return false
+		}
+		exp := before
+		expRegs := w
+		if allowed {
+			if acc.store {
+				exp = before.clone()
+				for i := 0; i < acc.width; i++ {
+					a := acc.addr + uint32(i)
+					exp.pages[a/ZP].data[a%ZP] = byte(w[4] >> (8 * uint(i)))
+				}
+			} else {
+				var x uint64
+				for i := 0; i < acc.width; i++ {
+					a := acc.addr + uint32(i)
+					x |= uint64(before.pages[a/ZP].data[a%ZP]) << (8 * uint(i))
+				}
+				expRegs[3] = x
+			}
+		} else if rg[7] == INNERFAULT {
+			lo, hi := uint64(acc.addr/ZP)*ZP, uint64(acc.addr)+uint64(acc.width)-1
+			if rg[8] < lo || rg[8] > hi {
+				fail(site, "fault-address-out-of-range", key, fmt.Sprintf("%s: %#x not in [%#x,%#x]", step, rg[8], lo, hi))
+			}
+		}
+		if d := exp.diff(&inner); d != "" {
+			kind := "memory-changed-by-failed-access"
+			if allowed {
+				kind = "wrong-memory-after-access"
+			}
+			fail(site, kind, key, step+": "+d)
+			return false
+		}
+		if got != expRegs {
+			kind := "register-changed-by-failed-access"
+			if allowed {
+				kind = "wrong-register-after-access"
+			}
+			fail(site, kind, key, fmt.Sprintf("%s: registers %x expected %x", step, got, expRegs))
+			return false
+		}
+		model.pages = exp.pages
+		return true
+	}
+	if !applyPages(c05HX, 2, c.R1) {
+		return
+	}
+	if !invokeOnce(a1, 0, "first-invoke") {
+		r.Eval()
+		return
+	}
+	if !applyPages(target, 1, c.R2) {
+		return
+	}
+	invokeOnce(a2, 1, "second-invoke")
+	r.Eval()
+}
+
 // ---------------------------------------------------------------- main -----
 
 func TestVerif_C05(t *testing.T) {
@@ -886,6 +1158,8 @@ func TestVerif_C05(t *testing.T) {
 			c05RunSbrk(r, rc)
 		case "pages":
 			c05RunPages(r, rc)
+		case "hist":
+			c05RunHist(r, rc)
 		}
 		return
 	}
@@ -935,6 +1209,27 @@ func TestVerif_C05(t *testing.T) {
 			}
 			r.Space(1)
 			c05RunPages(r, c05Case{Fam: "pages", R1: r1, R2: r2})
+		}
+	}
+	// (4) inner-machine histories through machine / pages / invoke
+	nAcc := len(c05HistAccs())
+	for r1 := 1; r1 <= 2; r1++ {
+		for r2 := 0; r2 <= 4; r2++ {
+			for tgt := 0; tgt < 2; tgt++ {
+				for i1 := 0; i1 < nAcc; i1++ {
+					if c05HistAccs()[i1].store && r1 == 1 {
+						continue // the first access must succeed (it is what leaves a history behind)
+					}
+					for i2 := 0; i2 < nAcc; i2++ {
+						idx++
+						if !r.Mine(idx) {
+							continue
+						}
+						r.Space(1)
+						c05RunHist(r, c05Case{Fam: "hist", R1: r1, R2: r2, World: tgt, Op: i1, Split: i2})
+					}
+				}
+			}
 		}
 	}
 }
